@@ -120,6 +120,9 @@ type rewriter struct {
 	rep     *report
 	used    bool // current file uses the runtime
 	recv2   map[*ast.UnaryExpr]bool
+	flatten map[*ast.BlockStmt]bool // synthetic blocks to be spliced into the enclosing statement list
+	simple  bool                    // rewriting an init/post statement: no blocks allowed
+	noWrap  map[*ast.CallExpr]bool  // zero-result atomic calls handled at statement level
 	curFunc string
 }
 
@@ -258,7 +261,7 @@ func main() {
 	for _, ip := range paths {
 		p := mi.pkgs[ip]
 		for i, f := range p.files {
-			rw := &rewriter{fset: fset, root: root, mod: mod, p: p, rep: rep, recv2: map[*ast.UnaryExpr]bool{}}
+			rw := &rewriter{fset: fset, root: root, mod: mod, p: p, rep: rep, recv2: map[*ast.UnaryExpr]bool{}, flatten: map[*ast.BlockStmt]bool{}, noWrap: map[*ast.CallExpr]bool{}}
 			rw.file(f)
 			if !rw.used {
 				continue
@@ -493,10 +496,16 @@ func (rw *rewriter) block(b *ast.BlockStmt) {
 }
 
 func (rw *rewriter) stmts(list []ast.Stmt) []ast.Stmt {
-	for i, s := range list {
-		list[i] = rw.stmt(s)
+	var out []ast.Stmt
+	for _, s := range list {
+		r := rw.stmt(s)
+		if b, ok := r.(*ast.BlockStmt); ok && rw.flatten[b] {
+			out = append(out, b.List...)
+			continue
+		}
+		out = append(out, r)
 	}
-	return list
+	return out
 }
 
 func (rw *rewriter) markRecv2Spec(vs *ast.ValueSpec) {
@@ -562,6 +571,60 @@ func (rw *rewriter) syncMethod(c *ast.CallExpr) (tname, mname string, ptr ast.Ex
 	return
 }
 
+// atomicCall reports whether c calls into sync/atomic (function or method) or
+// a method of sync.Map / sync.Pool, and how many results it has. These
+// operations never block; they only get a scheduling point *after* them so
+// that protocols built from them interleave (and spin-waits make progress).
+func (rw *rewriter) atomicCall(c *ast.CallExpr) (name string, results int, ok bool) {
+	var fn *types.Func
+	switch f := c.Fun.(type) {
+	case *ast.SelectorExpr:
+		if sel := rw.p.info.Selections[f]; sel != nil {
+			if sel.Kind() != types.MethodVal {
+				return
+			}
+			fn, _ = sel.Obj().(*types.Func)
+		} else {
+			fn, _ = rw.p.info.Uses[f.Sel].(*types.Func)
+		}
+	case *ast.Ident:
+		fn, _ = rw.p.info.Uses[f].(*types.Func)
+	case *ast.IndexExpr: // generic instantiation, e.g. atomic.Pointer[T] methods are selectors; functions like atomic.X[T] do not exist yet
+		return
+	}
+	if fn == nil || fn.Pkg() == nil {
+		return
+	}
+	sig, _ := fn.Type().(*types.Signature)
+	if sig == nil {
+		return
+	}
+	switch fn.Pkg().Path() {
+	case "sync/atomic":
+	case "sync":
+		if sig.Recv() == nil {
+			return
+		}
+		rt := sig.Recv().Type()
+		if p, isPtr := rt.(*types.Pointer); isPtr {
+			rt = p.Elem()
+		}
+		named, isNamed := rt.(*types.Named)
+		if !isNamed {
+			return
+		}
+		if n := named.Obj().Name(); n != "Map" && n != "Pool" {
+			return
+		}
+		if fn.Name() == "Range" {
+			return
+		}
+	default:
+		return
+	}
+	return fn.Pkg().Name() + "." + fn.Name(), sig.Results().Len(), true
+}
+
 // expr rewrites an expression tree (post-order) and returns the replacement.
 func (rw *rewriter) expr(e ast.Expr) ast.Expr {
 	if e == nil {
@@ -569,10 +632,11 @@ func (rw *rewriter) expr(e ast.Expr) ast.Expr {
 	}
 	switch x := e.(type) {
 	case *ast.FuncLit:
-		saved := rw.curFunc
+		saved, savedSimple := rw.curFunc, rw.simple
 		rw.curFunc = saved + ".func"
+		rw.simple = false
 		rw.block(x.Body)
-		rw.curFunc = saved
+		rw.curFunc, rw.simple = saved, savedSimple
 		return x
 	case *ast.UnaryExpr:
 		x.X = rw.expr(x.X)
@@ -606,12 +670,28 @@ func (rw *rewriter) expr(e ast.Expr) ast.Expr {
 				return call("RLock", ptr, rw.newSite(x.Pos(), "rlock"))
 			case "RWMutex.RUnlock":
 				return call("RUnlock", ptr, rw.newSite(x.Pos(), "runlock"))
+			case "Cond.Wait":
+				return call("CondWait", ptr, rw.newSite(x.Pos(), "condwait"))
+			case "Cond.Signal":
+				return call("CondSignal", ptr, rw.newSite(x.Pos(), "signal"))
+			case "Cond.Broadcast":
+				return call("CondBroadcast", ptr, rw.newSite(x.Pos(), "broadcast"))
 			case "Once.Do":
 				if len(x.Args) == 1 {
 					return call("OnceDo", ptr, x.Args[0], rw.newSite(x.Pos(), "once"))
 				}
 			}
 			// everything else on a sync type is handled at statement level (see stmt) or not at all
+		}
+		if name, nres, ok := rw.atomicCall(x); ok {
+			switch {
+			case rw.noWrap[x]:
+				// scheduling point added at statement level
+			case nres == 1:
+				return call("After", x, rw.newSite(x.Pos(), "atomic:"+name))
+			case nres >= 2:
+				rw.uninstr(x.Pos(), "atomic:"+name+" (multi-value context)")
+			}
 		}
 		return x
 	}
@@ -654,7 +734,13 @@ func (rw *rewriter) walkFields(n ast.Node) {
 						continue
 					}
 				}
+				fn := v.Type().Field(i).Name
+				saved := rw.simple
+				if fn == "Init" || fn == "Post" || fn == "Assign" {
+					rw.simple = true
+				}
 				r := rw.stmt(f.Interface().(ast.Stmt))
+				rw.simple = saved
 				f.Set(reflect.ValueOf(&r).Elem())
 			}
 		case f.Kind() == reflect.Slice && f.Type().Elem() == exprT:
@@ -741,6 +827,21 @@ func (rw *rewriter) stmt(s ast.Stmt) ast.Stmt {
 				rw.recv2[u] = true
 			}
 		}
+		if len(x.Rhs) == 1 && !rw.simple {
+			if c, ok := unparen(x.Rhs[0]).(*ast.CallExpr); ok {
+				if name, nres, isAt := rw.atomicCall(c); isAt && nres >= 2 {
+					rw.noWrap[c] = true
+					for i := range x.Lhs {
+						x.Lhs[i] = rw.expr(x.Lhs[i])
+					}
+					x.Rhs[0] = rw.expr(x.Rhs[0])
+					sid := rw.newSite(x.Pos(), "atomic:"+name)
+					b := &ast.BlockStmt{List: []ast.Stmt{x, stmt(call("PostSync", sid))}}
+					rw.flatten[b] = true
+					return b
+				}
+			}
+		}
 		for i := range x.Lhs {
 			x.Lhs[i] = rw.expr(x.Lhs[i])
 		}
@@ -781,6 +882,10 @@ func (rw *rewriter) stmt(s ast.Stmt) ast.Stmt {
 		return x
 
 	case *ast.ExprStmt:
+		if rw.simple {
+			x.X = rw.expr(x.X)
+			return x
+		}
 		if c, ok := x.X.(*ast.CallExpr); ok {
 			// close(ch)
 			if id, ok := c.Fun.(*ast.Ident); ok && id.Name == "close" && len(c.Args) == 1 {
@@ -812,6 +917,14 @@ func (rw *rewriter) stmt(s ast.Stmt) ast.Stmt {
 					x,
 					stmt(call("PostSync", sid)),
 				}}
+			}
+		}
+		if c, ok := x.X.(*ast.CallExpr); ok {
+			if name, nres, isAt := rw.atomicCall(c); isAt && nres != 1 {
+				rw.noWrap[c] = true
+				x.X = rw.expr(x.X)
+				sid := rw.newSite(x.Pos(), "atomic:"+name)
+				return &ast.BlockStmt{List: []ast.Stmt{x, stmt(call("PostSync", sid))}}
 			}
 		}
 		x.X = rw.expr(x.X)
@@ -866,8 +979,6 @@ func bracketed(tname, mname string) bool {
 	switch tname {
 	case "WaitGroup":
 		return mname == "Add" || mname == "Done" || mname == "Wait"
-	case "Cond":
-		return mname == "Signal" || mname == "Broadcast"
 	}
 	return false
 }
